@@ -6,6 +6,9 @@
 #include <gudhi/Fields/Zp_field.h>
 #include <gudhi/Fields/Zp_field_shared.h>
 #include <gudhi/Fields/Zp_field_operators.h>
+#include <gudhi/Fields/Multi_field.h>
+#include <gudhi/Fields/Multi_field_shared.h>
+#include <gudhi/Fields/Multi_field_operators.h>
 #include <gudhi/Fields/Multi_field_small.h>
 #include <gudhi/Fields/Multi_field_small_shared.h>
 #include <gudhi/Fields/Multi_field_small_operators.h>
